@@ -144,7 +144,12 @@ func emitCtor(c ctor) {
 		if c.fr == 0 && emitted%3 == 1 {
 			pokeProtocolID(req, uint16(1+emitted%65000))
 		}
-		return vOk(p, B(req.Bytes()), I(req.ExpectedResponseLength()))
+		raw := req.Bytes()
+		ob := B(raw)
+		for i := range raw { // a frame handed to the caller is the caller's: later frames must not depend on it
+			raw[i] ^= 0x5A
+		}
+		return vOk(p, ob, I(req.ExpectedResponseLength()))
 	})
 	tid := 0
 	if err == nil && req != nil {
@@ -651,7 +656,120 @@ func streamParse3(seed uint64, thorough bool) {
 			emitParse3(w, b, []byte{1}, []byte{2})
 		}
 	}
+	// pairs: parse frame A, keep the decoded value, parse frame B of the same kind from ANOTHER buffer,
+	// then look at A's value again: a parser must not keep state between calls (a package-level
+	// scratch buffer, a cached value)
+	pf := requestFrames(r, 120)
+	// ... plus legal payload-carrying requests of every kind, several of each, so that every parser
+	// that copies a payload is paired with itself on different payloads
+	for rep := 0; rep < 6; rep++ {
+		for fr := 0; fr < 2; fr++ {
+			var cs []ctor
+			cs = append(cs, cWCoils(fr, r.u8(), r.u16(), coilPattern(r, 1+r.intn(40), 3)))
+			cs = append(cs, cWRegs(fr, r.u8(), r.u16(), r.bytes(2*(1+r.intn(20)))))
+			cs = append(cs, cRW(fr, r.u8(), r.u16(), uint16(1+r.intn(20)), r.u16(), r.bytes(2*(1+r.intn(20)))))
+			cs = append(cs, cWReg(fr, r.u8(), r.u16(), r.bytes(2)))
+			for _, c := range cs {
+				req, err := c.mk()
+				if err != nil || req == nil {
+					continue
+				}
+				fc := int(req.FunctionCode())
+				if fr == 0 {
+					pf = append(pf, frame{req.Bytes(), []int{fc, 200}})
+				} else {
+					pf = append(pf, frame{req.Bytes(), []int{100 + fc, 201, 202}})
+				}
+			}
+		}
+	}
+	for i := 0; i+1 < len(pf); i++ {
+		a := pf[i]
+		for j := i + 1; j < len(pf); j++ {
+			b := pf[j]
+			if a.codes[0] != b.codes[0] || len(a.bytes) > 80 {
+				continue
+			}
+			for _, w := range a.codes {
+				da, db := withCap(a.bytes, nil), withCap(b.bytes, nil)
+				o := guard(func() V {
+					curInput = nil
+					ra, errA := parseReqValue(w, da)
+					if errA != nil || ra == nil {
+						return L(I(3))
+					}
+					_, pa := projReq(ra)
+					early := L(pa, B(ra.Bytes()))
+					_, _ = parseReqValue(w, db)
+					_, pl := projReq(ra)
+					late := L(pl, B(ra.Bytes()))
+					return L(early, late)
+				})
+				emit("parse_pair", L(I(w), B(a.bytes), B(b.bytes)), o)
+			}
+			break
+		}
+	}
 	emit("sentinels", L(), sentinelState())
+}
+
+// parseReqValue: the request parsers / dispatchers as values (codes as in parseAny)
+func parseReqValue(w int, d []byte) (packet.Request, error) {
+	switch w {
+	case 1:
+		return nilIfErr(packet.ParseReadCoilsRequestTCP(d))
+	case 2:
+		return nilIfErr(packet.ParseReadDiscreteInputsRequestTCP(d))
+	case 3:
+		return nilIfErr(packet.ParseReadHoldingRegistersRequestTCP(d))
+	case 4:
+		return nilIfErr(packet.ParseReadInputRegistersRequestTCP(d))
+	case 5:
+		return nilIfErr(packet.ParseWriteSingleCoilRequestTCP(d))
+	case 6:
+		return nilIfErr(packet.ParseWriteSingleRegisterRequestTCP(d))
+	case 15:
+		return nilIfErr(packet.ParseWriteMultipleCoilsRequestTCP(d))
+	case 16:
+		return nilIfErr(packet.ParseWriteMultipleRegistersRequestTCP(d))
+	case 17:
+		return nilIfErr(packet.ParseReadServerIDRequestTCP(d))
+	case 23:
+		return nilIfErr(packet.ParseReadWriteMultipleRegistersRequestTCP(d))
+	case 101:
+		return nilIfErr(packet.ParseReadCoilsRequestRTU(d))
+	case 102:
+		return nilIfErr(packet.ParseReadDiscreteInputsRequestRTU(d))
+	case 103:
+		return nilIfErr(packet.ParseReadHoldingRegistersRequestRTU(d))
+	case 104:
+		return nilIfErr(packet.ParseReadInputRegistersRequestRTU(d))
+	case 105:
+		return nilIfErr(packet.ParseWriteSingleCoilRequestRTU(d))
+	case 106:
+		return nilIfErr(packet.ParseWriteSingleRegisterRequestRTU(d))
+	case 115:
+		return nilIfErr(packet.ParseWriteMultipleCoilsRequestRTU(d))
+	case 116:
+		return nilIfErr(packet.ParseWriteMultipleRegistersRequestRTU(d))
+	case 117:
+		return nilIfErr(packet.ParseReadServerIDRequestRTU(d))
+	case 123:
+		return nilIfErr(packet.ParseReadWriteMultipleRegistersRequestRTU(d))
+	case 200:
+		return packet.ParseTCPRequest(d)
+	case 201:
+		return packet.ParseRTURequest(d)
+	case 202:
+		// (declared to return a Response although it parses requests)
+		r, err := packet.ParseRTURequestWithCRC(d)
+		if err != nil {
+			return nil, err
+		}
+		req, _ := r.(packet.Request)
+		return req, nil
+	}
+	return nil, nil
 }
 
 // ---------- responses ----------
@@ -1027,6 +1145,34 @@ func streamCrcGate(seed uint64, thorough bool) {
 		b := r.bytes(n)
 		emit("parse1", L(I(202), B(b), B(nil)), parseAny(202, withCap(b, nil)))
 		emit("parse1", L(I(302), B(b), B(nil)), parseAny(302, withCap(b, nil)))
+	}
+	// the CRC-checking exception recogniser: 5-byte frames with and without the exception bit, with the
+	// right and with wrong trailers, and CRC-consistent 5-byte heads followed by further bytes
+	for i := 0; i < 600; i++ {
+		b := []byte{r.u8(), r.u8(), r.u8(), 0, 0}
+		if i%2 == 0 {
+			b[1] |= 0x80
+		} else {
+			b[1] &= 0x7f
+		}
+		fixCRC(b)
+		variants := [][]byte{b}
+		for _, t := range []byte{1, 0x80} {
+			c := append([]byte(nil), b...)
+			c[3+r.intn(2)] ^= t
+			variants = append(variants, c)
+		}
+		for k := 1; k <= 3; k++ {
+			variants = append(variants, append(append([]byte(nil), b...), r.bytes(k)...))
+			e := append(append([]byte(nil), b...), r.bytes(k)...)
+			fixCRC(e)
+			variants = append(variants, e)
+		}
+		for _, v := range variants {
+			for _, w := range []int{404, 405, 302} {
+				emit("parse1", L(I(w), B(v), B(nil)), parseAny(w, withCap(v, nil)))
+			}
+		}
 	}
 }
 
